@@ -505,13 +505,25 @@ example : (match (step {} demoHD03 (run {} demoHD03 [.create [0], .newAccountWO 
 example : (match (step {} demoHD03 (run {} demoHD03 [.create [0], .newAccountWO (84, 0) 2 [7] (1 + H) 7 none,
       .next (84, 0) 1 1 false 1, .restart]).1 (.lookup (84, 0) (.key (.hd [7, 0, 0]) 0 true) 5)).2.1 with
       | .addr i => i.fp == 7 && i.acct == 1 && i.acctChild == 1 + H && i.branch == 0 && i.index == 0 | _ => false) = true := by decide
-/-- … whereas an address made by `extendAddresses` (observation 5 of notes/C03.md, the official tree's behaviour, modelled as
-    it is): its cached object reports fingerprint 0, the object rebuilt after a restart reports 7 -/
+/-- the same for an address made by `extendAddresses` (tree with repo-patches/fix-C08-extendAddresses-fingerprint.diff): the
+    cached object reports the account's fingerprint, like the object rebuilt after a restart -/
 example : (match (step {} demoHD03 (run {} demoHD03 [.create [0], .newAccountWO (84, 0) 2 [7] (1 + H) 7 none,
       .extend (84, 0) 1 0 false]).1 (.lookup (84, 0) (.key (.hd [7, 0, 0]) 0 true) 5)).2.1 with
-      | .addr i => i.fp == 0 | _ => false) = true := by decide
+      | .addr i => i.fp == 7 && i.acct == 1 && i.acctChild == 1 + H && i.branch == 0 && i.index == 0 | _ => false) = true := by decide
 example : (match (step {} demoHD03 (run {} demoHD03 [.create [0], .newAccountWO (84, 0) 2 [7] (1 + H) 7 none,
       .extend (84, 0) 1 0 false, .restart]).1 (.lookup (84, 0) (.key (.hd [7, 0, 0]) 0 true) 5)).2.1 with
-      | .addr i => i.fp == 7 | _ => false) = true := by decide
+      | .addr i => i.fp == 7 && i.acct == 1 && i.acctChild == 1 + H && i.branch == 0 && i.index == 0 | _ => false) = true := by decide
+
+/-- **Unfixed tree (`e1`): the fingerprint of an extended address depends on whether the wallet was restarted.**  Before the
+    fix `extendAddresses` left `MasterKeyFingerprint` out of the derivation path of the objects it caches: for an account
+    imported with fingerprint 7 the running manager reports 0 for the address, a restarted manager (which rebuilds the
+    object from its row) reports 7.  Go oracle keys `C08 key=ExtendAddresses.restart.fingerprint-differs`,
+    `C03 key=extendAddresses.fingerprint-not-the-accounts`. -/
+theorem C03_extend_fingerprint_counterexample_e1 :
+    (match (step { e1 := true } demoHD03 (run { e1 := true } demoHD03 [.create [0], .newAccountWO (84, 0) 2 [7] (1 + H) 7 none,
+        .extend (84, 0) 1 0 false]).1 (.lookup (84, 0) (.key (.hd [7, 0, 0]) 0 true) 5)).2.1,
+      (step { e1 := true } demoHD03 (run { e1 := true } demoHD03 [.create [0], .newAccountWO (84, 0) 2 [7] (1 + H) 7 none,
+        .extend (84, 0) 1 0 false, .restart]).1 (.lookup (84, 0) (.key (.hd [7, 0, 0]) 0 true) 5)).2.1 with
+      | .addr i, .addr j => i.fp == 0 && j.fp == 7 && i.index == j.index && i.acct == j.acct | _, _ => false) = true := by decide
 
 end AddrDerive
